@@ -90,7 +90,7 @@ chk(
 chk(
     "C12",
     "translation_validation",
-    "Generated functions (arguments, allocations, dense globals; 1-5 accelerator ops with ins/outs in any order incl. writer-before-reader on the same buffer; loops with trip counts 0..3; layout casts inserted per op after set-memory-space as set-memory-layout does) are executed on a logical buffer machine before (casts are aliases) and after the real set-memory-space + realize-memref-casts; the digest of the data every accelerator op reads (poison = uninitialised), the final contents of all externally visible buffers and returned memrefs must be equal; after set-memory-space every accelerator operand must be in L1 and function boundaries keep L3; re-laid-out dense globals are decoded with the reference layout function inside the machine.",
+    "Generated functions (arguments, allocations, dense globals, static subviews of larger dense globals, dense arith.constant memrefs; 1-5 accelerator ops with ins/outs in any order incl. writer-before-reader on the same buffer; loops with trip counts 0..3; layout casts inserted per op after set-memory-space as set-memory-layout does) are executed on a logical buffer machine before (casts are aliases) and after the real set-memory-space + realize-memref-casts; the digest of the data every accelerator op reads (poison = uninitialised), the final contents of all externally visible buffers and returned memrefs must be equal; after set-memory-space every accelerator operand must be in L1 and function boundaries keep L3; re-laid-out dense globals and constants are decoded with the reference layout function inside the machine; constants folded by the frontend's RemoveTransposeConstants pattern are read back element by element.",
     TB + "logical buffer machine vf/interp/buf_m.py (ins read, outs written, other operands both); neutral direct readers of the original buffers only after the last accelerator op (direct accesses between two uses of a cast are outside what one copy-in/copy-out can serve); one known finding (several stand-ins of one buffer) attributed by predicate + counterfactual realisation with per-use copies.",
     "runtime monitoring: before/after execution on a symbolic buffer-contents machine with poisoned allocations; consumer logs and final external contents compared",
     "DESIGN.md section 3 C12",
